@@ -1,32 +1,162 @@
 package main
 
 import (
+	"flag"
 	"fmt"
 	"os"
+	"sort"
+	"strings"
+	"time"
 
-	"golang.org/x/tools/go/packages"
-	"golang.org/x/tools/go/ssa"
-	"golang.org/x/tools/go/ssa/ssautil"
+	"govc/vc"
 )
 
 func main() {
-	cfg := &packages.Config{Mode: packages.LoadAllSyntax, Dir: "/repo", BuildFlags: []string{"-tags", "verif"},
-		Env: append(os.Environ(), "GOFLAGS=-mod=mod", "GOPROXY=off", "GOSUMDB=off", "GOTOOLCHAIN=local")}
-	pkgs, err := packages.Load(cfg, os.Args[1])
-	if err != nil {
-		panic(err)
+	if len(os.Args) < 2 {
+		fmt.Fprintln(os.Stderr, "usage: govc <verify|check|replay> ...")
+		os.Exit(2)
 	}
-	prog, spkgs := ssautil.AllPackages(pkgs, ssa.NaiveForm|ssa.GlobalDebug)
-	prog.Build()
-	for _, p := range spkgs {
-		if p == nil {
+	switch os.Args[1] {
+	case "verify":
+		verifyCmd(os.Args[2:])
+	case "check":
+		checkCmd(os.Args[2:])
+	case "replay":
+		replayCmd(os.Args[2:])
+	default:
+		fmt.Fprintln(os.Stderr, "unknown command")
+		os.Exit(2)
+	}
+}
+
+// verify: developer entry point — verify the functions under contract of some packages
+func verifyCmd(args []string) {
+	fs := flag.NewFlagSet("verify", flag.ExitOnError)
+	repo := fs.String("repo", "/repo", "repository")
+	only := fs.String("func", "", "only functions whose key contains this")
+	timeout := fs.Duration("timeout", 10*time.Second, "solver timeout")
+	verbose := fs.Bool("v", false, "list every obligation")
+	dump := fs.Bool("ssa", false, "dump SSA of selected functions")
+	extra := fs.String("contracts", "", "extra contract files: file=pkgpath,...")
+	fs.Parse(args)
+	t0 := time.Now()
+	eng, err := vc.Load(*repo, fs.Args(), nil)
+	if err != nil {
+		fmt.Fprintln(os.Stderr, err)
+		os.Exit(2)
+	}
+	ex := map[string]string{}
+	if *extra != "" {
+		for _, kv := range strings.Split(*extra, ",") {
+			f, p, _ := strings.Cut(kv, "=")
+			ex[f] = p
+		}
+	}
+	if err := eng.LoadContracts(ex); err != nil {
+		fmt.Fprintln(os.Stderr, err)
+		os.Exit(2)
+	}
+	fmt.Printf("loaded in %.1fs\n", time.Since(t0).Seconds())
+	var keys []string
+	for k, fc := range eng.CS.Funcs {
+		if fc.Trusted || fc.Iface {
 			continue
 		}
-		for _, name := range os.Args[2:] {
-			if f := p.Func(name); f != nil {
-				f.WriteTo(os.Stdout)
+		if *only != "" && !strings.Contains(k, *only) {
+			continue
+		}
+		keys = append(keys, k)
+	}
+	sort.Strings(keys)
+	os.MkdirAll("/verif/work/smt", 0o755)
+	solver := &vc.Solver{Dir: "/verif/work/smt", Timeout: *timeout, Jobs: 16}
+	bad := 0
+	type job struct {
+		key string
+		fn  interface{}
+	}
+	initPkgs := map[string]bool{}
+	for _, gi := range eng.CS.GInvs {
+		if !initPkgs[gi.Pkg] && (*only == "" || strings.Contains(gi.Pkg+".init", *only)) {
+			initPkgs[gi.Pkg] = true
+			fn, fc := eng.InitContract(gi.Pkg)
+			if fn == nil {
+				continue
 			}
+			em, err := eng.VerifyFunc(fn, fc)
+			if err != nil {
+				fmt.Printf("ERROR: %v\n", err)
+				bad++
+				continue
+			}
+			solver.SolveAll(em, em.Obls)
+			ok := 0
+			for _, ob := range em.Obls {
+				good := ob.Result.Status == "unsat"
+				if ob.ExpectSat {
+					good = ob.Result.Status != "unsat"
+				}
+				if good {
+					ok++
+				} else {
+					bad++
+				}
+				if *verbose || !good {
+					fmt.Printf("  %-8s %-7s %5.2fs %s  [%s] %s\n", map[bool]string{true: "ok", false: "FAIL"}[good], ob.Result.Status, ob.Result.Seconds, ob.Name, ob.Pos, ob.Result.File)
+				}
+			}
+			fmt.Printf("%s.init: %d/%d obligations discharged\n", gi.Pkg, ok, len(em.Obls))
 		}
 	}
-	fmt.Println("ok")
+	for _, k := range keys {
+		fn := eng.FindFunc(k)
+		if fn == nil {
+			fmt.Printf("ERROR: no function for contract %s\n", k)
+			bad++
+			continue
+		}
+		if *dump {
+			fn.WriteTo(os.Stdout)
+		}
+		em, err := eng.VerifyFunc(fn, eng.CS.Funcs[k])
+		if err != nil {
+			fmt.Printf("ERROR: %v\n", err)
+			bad++
+			continue
+		}
+		solver.SolveAll(em, em.Obls)
+		ok, n := 0, 0
+		for _, ob := range em.Obls {
+			n++
+			good := ob.Result.Status == "unsat"
+			if ob.ExpectSat {
+				good = ob.Result.Status != "unsat"
+			}
+			if good {
+				ok++
+			} else {
+				bad++
+			}
+			if *verbose || !good {
+				fmt.Printf("  %-8s %-7s %5.2fs %s  [%s] %s\n", map[bool]string{true: "ok", false: "FAIL"}[good], ob.Result.Status, ob.Result.Seconds, ob.Name, ob.Pos, ob.Result.File)
+			}
+		}
+		fmt.Printf("%s: %d/%d obligations discharged\n", k, ok, n)
+	}
+	for _, e := range eng.Errors {
+		fmt.Println("ENGINE ERROR:", e)
+		bad++
+	}
+	var miss []string
+	for k := range eng.Missing {
+		miss = append(miss, k)
+	}
+	sort.Strings(miss)
+	for _, k := range miss {
+		fmt.Printf("MISSING CONTRACT: %s (called at %s)\n", k, strings.Join(eng.Missing[k], ", "))
+		bad++
+	}
+	if bad > 0 {
+		os.Exit(1)
+	}
 }
